@@ -99,6 +99,7 @@ func engineRegRace(f *rep.Flags, res *rep.Result) {
 		n++
 	}
 	res.Exhaustive = false
+	res.Supporting = true
 	res.Evaluations, res.States, res.Transitions, res.Distinct = int64(n), int64(n), int64(n*20), 2
 	res.Rule = "free-running repetitions of the registration-vs-creation scenario over the full stack under the Go race detector (supporting evidence; the deciding exploration is the controlled engine)"
 	res.Bounds["free_running_runs"] = n
